@@ -4,7 +4,7 @@ TIER="$1"; SEED="$2"; shift 2
 IDS="$*"; [ -n "$IDS" ] || IDS="$(python3 -c "import json;print(' '.join(c['property_id'] for c in json.load(open('MANIFEST.json'))['checks']))")"
 for id in $IDS; do
   s=$(date +%s)
-  out="$(VERIF_SEED=$SEED ./check $id --tier $TIER 2>&1 | grep -v '^WARNING')"
+  out="$(VERIF_SEED=$SEED ./check $id --tier $TIER ${NOEVID:+--no-evidence} 2>&1 | grep -v '^WARNING')"
   e=$(( $(date +%s) - s ))
   v=$(printf '%s\n' "$out" | grep -c '^VIOLATION'); i=$(printf '%s\n' "$out" | grep -c '^INCONCLUSIVE'); k=$(printf '%s\n' "$out" | grep -c '^KNOWN-FINDING')
   r=$(printf '%s\n' "$out" | grep '^RESULT' | cut -d' ' -f2-8)
